@@ -13,6 +13,7 @@ Markdown token sets (this is also what covers TableRow/TableCell/ListItem constr
 import random
 
 import block_units
+import doc_units
 import common
 import gen_docs
 import gen_tree
@@ -75,6 +76,8 @@ def units(ctx):
     texts += [gen_docs.mutate(rng, rng.choice(texts[:652])) for _ in range(ctx.budget(600, 6000))]
     texts += [gen_docs.malformed(rng) for _ in range(ctx.budget(300, 3000))]
     block_units.run(ctx, texts)
+    # the token constructors (ListItem, Table, TableRow, TableCell copy the buffer's numbers): whole token tree with line numbers
+    doc_units.run(ctx, texts[652:652 + ctx.budget(1500, 15000)], configs=[doc_units.CONFIGS[0], doc_units.CONFIGS[7]])
 
 
 def explore(ctx, seeds):
